@@ -10,6 +10,9 @@ ctx = core.Ctx(pid + "-seriesdev", sys.argv[2] if len(sys.argv) > 2 else "quick"
 t0 = time.time()
 vh = core.build_vh()
 cases, findings, raw = plyfam.run_series(ctx, vh, pid)
+if os.environ.get("VERIF_SELFTEST") == "1":
+    plyfam.self_test_series(ctx, raw, findings, pid)
+    print(json.dumps(ctx.extra["series_selftest_rejected_by"]))
 sigs = {}
 for f in findings:
     sigs.setdefault(plyfam.signature(f), []).append((f["n"], f["at"], f["rerr"][:80]))
